@@ -78,6 +78,42 @@ impl Report {
             }));
         }
     }
+    /// Merge the JSON report of a child run (same property, other configuration).
+    pub fn absorb(&mut self, child: &Value, prefix: &str) {
+        self.evaluations += child["evaluations"].as_u64().unwrap_or(0);
+        // distinct keys of the child are not available: count them through a marker set
+        let n = child["distinct_nontrivial"].as_u64().unwrap_or(0);
+        for k in 0..n {
+            if self.nontrivial.len() < MAX_DISTINCT {
+                self.nontrivial.insert(format!("{prefix}#{k}"));
+            }
+        }
+        if let Some(h) = child["histogram"].as_object() {
+            for (k, v) in h {
+                *self.histogram.entry(k.clone()).or_insert(0) += v.as_u64().unwrap_or(0);
+            }
+        }
+        self.model_disagreement_count += child["model_disagreement_count"].as_u64().unwrap_or(0);
+        self.oracle_failure_count += child["oracle_failure_count"].as_u64().unwrap_or(0);
+        self.traces_validated += child["traces_validated_against_impl"].as_u64().unwrap_or(0);
+        for d in child["model_disagreements"].as_array().cloned().unwrap_or_default() {
+            if self.model_disagreements.len() < MAX_KEEP {
+                self.model_disagreements.push(d);
+            }
+        }
+        for f in child["oracle_failures"].as_array().cloned().unwrap_or_default() {
+            if self.oracle_failures.len() < 400 {
+                self.oracle_failures.push(f);
+            }
+        }
+        for s in child["samples"].as_array().cloned().unwrap_or_default() {
+            self.sample(s);
+        }
+        for s in child["notes"].as_array().cloned().unwrap_or_default() {
+            self.notes.push(s.as_str().unwrap_or("").to_string());
+        }
+    }
+
     pub fn to_json(&self) -> Value {
         json!({
             "property": self.property,
